@@ -135,7 +135,7 @@ func valueFromCommandText(commandText string) *variable.Value {
 		return variable.NewBoolean(false)
 	}
 
-	if commandText[0] == '+' { // see Antlr grammar, numbers don't start with + even though Go would be happy to parse them
+	if !isDecimalLiteral(commandText) { // see Antlr grammar: Go would be happy to parse +1, 1e3, .5, inf, 0x10 or 1_0 too
 		return variable.NewString(commandText)
 	}
 	numberValue, err := strconv.ParseFloat(commandText, 64)
@@ -143,6 +143,25 @@ func valueFromCommandText(commandText string) *variable.Value {
 		return variable.NewNumber(numberValue)
 	}
 	return variable.NewString(commandText)
+}
+
+// isDecimalLiteral reports whether text is an optionally negative decimal literal: digits, optionally followed
+// by a point and more digits.
+func isDecimalLiteral(text string) bool {
+	digits, points := 0, 0
+	for i, c := range text {
+		switch {
+		case '0' <= c && c <= '9':
+			digits++
+		case c == '-' && i == 0:
+		case c == '.' && points == 0 && digits > 0:
+			points++
+			digits = 0
+		default:
+			return false
+		}
+	}
+	return digits > 0
 }
 
 type CallStatement struct {
